@@ -130,6 +130,7 @@ package tracing
 //@   ensures [leaves-only-when-the-source-is-done] exists p int :: old(evlen) <= p && p + 1 < evlen && isRecv(ev(p)) && evch(ev(p)) == in.Done() &&
 //@             isCall(ev(p + 1)) && evch(ev(p + 1)) == code("tracing|ISenderHandle.Done")
 //@   loop 1 for
+//@     blocks only in select
 //@     invariant count(Call, code("tracing|ISenderHandle.Done")) == old(count(Call, code("tracing|ISenderHandle.Done")))
 //@     invariant [the-cancellation-case-is-armed-with-the-context-or-disarmed] cancelled == nil || cancelled == ctxdone(ctx)
 //@     iter ensures [a-turn-that-takes-the-cancellation-case-disarms-it-no-spinning]
